@@ -80,13 +80,16 @@ def pmap(fn, cases, chunksize=64, nproc=None):
     """Run fn(case) for every case on a fork pool; yields (case, result)."""
     global _FN
     _FN = fn
+    limited = nproc is not None
     nproc = nproc or NPROC
     if nproc <= 1:
         for c in chunks(cases, chunksize):
             yield from _work(c)
         return
     ctx = mp.get_context('fork')
-    with ctx.Pool(nproc) as pool:
+    # an explicit nproc marks a memory-bound space (whole-column workbooks): every chunk gets a fresh child, so nothing a case
+    # leaves behind (caches, uncollected cycles holding 1048576-row arrays) adds up inside a worker
+    with ctx.Pool(nproc, maxtasksperchild=1 if limited else None) as pool:
         for part in pool.imap_unordered(_work, chunks(cases, chunksize)):
             yield from part
 
